@@ -431,24 +431,37 @@ def run_multi(params, prefix, fp):
         order = params.get('order', [0, 2])
         for c in order:
             clients[c] = sdp.Client(bed.conns[c], mtu=48)
-            bed.do(clients[c].connect())
+            if not (c == 2 and q2 == 'connect'):
+                bed.do(clients[c].connect())
         w.settle()
         sched = explore.Sched(prefix, hold=True, expect_fp=fp)
         w.loop.scheduler = sched
         tasks = {}
+        events = {}
         for c, qi in ((0, q0), (2, q2)):
+            if qi in ('connect', 'disconnect'):
+                # the other client arrives / leaves while this client's transaction (with continuations) is under way
+                events[c] = w.loop.create_task(clients[c].connect() if qi == 'connect' else clients[c].disconnect())
+                continue
             txn, pattern, ids, handle = MULTI_QUERIES[qi]
             tasks[c] = w.loop.create_task(txn_coro(clients[c], txn, pattern or [], ids or [], handle))
         sched.active = True
         try:
-            w.loop.run_until(lambda: all(t.done() for t in tasks.values()), horizon=w.loop.time() + 30.0, max_steps=200000)
+            w.loop.run_until(lambda: all(t.done() for t in list(tasks.values()) + list(events.values())), horizon=w.loop.time() + 30.0, max_steps=200000)
             w.loop.run_quiescent(max_steps=200000)
         except StepBudgetExceeded:
             pass
         sched.active = False
         w.loop.scheduler = None
         viol, obs = [], []
+        for t in events.values():
+            if t.done() and not t.cancelled():
+                t.exception()
+            else:
+                t.cancel()
         for c, qi in ((0, q0), (2, q2)):
+            if c in events:
+                continue
             txn, pattern, ids, handle = MULTI_QUERIES[qi]
             t = tasks[c]
             if not t.done():
@@ -468,6 +481,8 @@ def run_multi(params, prefix, fp):
                 kind = v[0] if v[0] == 'no_answer' else 'corrupted_answer'
                 sig = {'sub': 'sdp_multi', 'kind': kind,
                        'client': 'first_connected' if c == order[0] else 'last_connected'}
+                if events:
+                    sig['meanwhile'] = 'other_client_' + str(q2) + 's'
                 viol.append(('sdp_multi_client', sig,
                              f'two clients (devices 0 and 2, connected in order {order}) each run one transaction concurrently; '
                              f'client on device {c} {TXN_NAMES[txn]}: {v[1]}'))
@@ -1019,6 +1034,10 @@ def run(ctx: core.Context) -> int:
             for order in ([0, 2], [2, 0]):
                 explore.explore(run_multi, {'q0': q0, 'q2': q2, 'order': order}, bound, jobs, st, max_runs=budget,
                                 label=f'q{q0}{q2}o{order[0]}:')
+        # the other client connects / disconnects while this client's transaction (which needs continuations) runs
+        for q0 in (0, 1, 2) if quick else range(len(MULTI_QUERIES)):
+            for ev in ('connect', 'disconnect'):
+                explore.explore(run_multi, {'q0': q0, 'q2': ev, 'order': [0, 2]}, bound, jobs, st, max_runs=budget, label=f'q{q0}{ev[0]}:')
         ctx.log('sdp_multi:', st.summary())
 
     return core.finish(
